@@ -73,7 +73,12 @@ func c20Exec(x *Ctx) {
 	var results []*c20Result
 	byID := map[int]*c20Entry{}
 	var gs []*rt.G
-	owners := []interface{}{0, 1, 2}
+	// two of the owners are distinct objects with equal contents: an owner is who it is, not what it holds
+	type peerT struct {
+		proto string
+		up    bool
+	}
+	owners := []interface{}{&peerT{"tcp", true}, &peerT{"tcp", true}, 2}
 	doFilter := func(owner, typ int) *c20Result {
 		res := &c20Result{owner: owner, typ: typ, inv: rt.Step()}
 		var o interface{}
@@ -114,7 +119,7 @@ func c20Exec(x *Ctx) {
 			}
 			var es []*c20Entry
 			for k := 0; k < mine; k++ {
-				e := &c20Entry{id: nextID, owner: r.Intn(3), typ: r.Pick(1, 2, 4, 3, 6, 5), producer: pi, seq: len(es)} // types that share bits are different types
+				e := &c20Entry{id: nextID, owner: r.Intn(3), typ: r.Pick(1, 2, 4, 3, 6, 5, 1, 2, 0), producer: pi, seq: len(es)} // types that share bits are different types
 				nextID++
 				es = append(es, e)
 				byID[e.id] = e
